@@ -17,3 +17,5 @@ LEVEL_TEXT = ('Proof, for all integers and all strings, that the field validator
               'value function (Gregorian days per month, ISO-8601 week counts, hour/minute ranges, exact string shapes); '
               'the comparison logic of match_range is covered under C17/C08 once the tree vocabulary is in place. '
               'Outside the two listed known findings.')
+from props._common import hub_bounded  # noqa: E402
+BOUNDED = [hub_bounded('C18-ranges-hub', ['ranges', 'forms'], ['html'])]
